@@ -206,15 +206,22 @@ def body(chk):
             ("min_max_mean_std", lambda: pba.min_max_mean_std(float(a), float(b), float(mu), sd), (), (), None),
             ("min_max_mean_var", lambda: pba.min_max_mean_var(float(a), float(b), float(mu), float(var)), (), (), None),
             ("known:min,max,mean", lambda: pba.known_properties(minimum=float(a), maximum=float(b), mean=float(mu)), (), (), None),
+            ("known:min,max", lambda: pba.known_properties(minimum=float(a), maximum=float(b)), (), (), None),
+            ("known:min,mean", lambda: pba.known_properties(minimum=float(a), mean=float(mu)), (), (n - 1,), None),
+            ("known:max,mean", lambda: pba.known_properties(maximum=float(b), mean=float(mu)), (0,), (), None),
+            ("known:mean,var", lambda: pba.known_properties(mean=float(mu), var=float(var)), (0,), (n - 1,), None),
+            ("known:min,max,mean,std", lambda: pba.known_properties(minimum=float(a), maximum=float(b), mean=float(mu), std=sd), (), (), None),
+            ("known:min,max,mean,var", lambda: pba.known_properties(minimum=float(a), maximum=float(b), mean=float(mu), var=float(var)), (), (), None),
         ]
         if a >= 0 and mu > 0:
             specs.append(("pos_mean_std", lambda: pba.pos_mean_std(float(mu), sd), (0,), (n - 1,), ("FPosMeanStd", [float(mu), sd])))
         med = d.median()
         if med is not None:
             specs.append(("min_max_median", lambda: pba.min_max_median(float(a), float(b), float(med)), (), (), None))
+            specs.append(("known:min,max,median", lambda: pba.known_properties(minimum=float(a), maximum=float(b), median=float(med)), (), (), None))
         boundary = (mu - a) * (b - mu) - var <= F(1, 10 ** 6) * max(var, F(1, 10 ** 6))    # the largest variance the range and mean allow
         for name, f, exl, exr, coq in specs:
-            if boundary and name in ("min_max_mean_std", "min_max_mean_var"):
+            if boundary and name in ("min_max_mean_std", "min_max_mean_var", "known:min,max,mean,std", "known:min,max,mean,var"):
                 continue                 # the rounded std may exceed the admissible maximum: raising is allowed there
             site = f"free:{name}"
             what = f"{name} with constraints read off the distribution (min {float(a)}, max {float(b)}, mean {float(mu):.6g}, std {sd:.6g})"
